@@ -46,7 +46,7 @@ PureOps == {"Sum", "Prod", "CumSum", "CumProd", "Abs", "Sqr", "Min", "Max", "Whi
             "Which", "WhichAll", "Contains", "Rep", "Seq", "AddS", "SAdd", "SubS", "SSub", "MulS", "SMul",
             "DivS", "SDiv", "Add", "Sub", "Mul", "Div", "SumProd", "Scalar", "Scalar3", "Kron", "Union",
             "Inter", "SameC", "Extract", "UnionAll", "InterAll", "Concat", "Mean", "Center", "CovB", "VarB",
-            "Fdr", "CovO", "MeanW", "CovW", "VarW"}
+            "Fdr", "CovO", "MeanW", "CovW", "VarW", "MeanX", "CenterX", "CovX", "VarX", "SdX", "CorX"}
 
 \* Independence reduction: a call with const arguments reads only its own
 \* arguments, so it is explored from the states in which the registers it does
@@ -57,7 +57,7 @@ Reads(op, xn, yn, zn, k) ==
   ELSE IF op \in {"Scalar3", "Diff", "CovW"} THEN {xn, yn, zn}
   ELSE IF op \in {"Add", "Sub", "Mul", "Div", "SumProd", "Scalar", "Kron", "Union", "Inter", "SameC", "Same",
                   "ContainsAll", "Extract", "AddEq", "SubEq", "MulEq", "DivEq", "Append", "Prepend", "Extend",
-                  "CovB", "CovO", "CorO", "CosO", "NormWO", "MiO", "MeanW", "VarW"} THEN {xn, yn}
+                  "CovB", "CovO", "CorO", "CosO", "NormWO", "MiO", "MeanW", "VarW", "CovX", "CorX"} THEN {xn, yn}
   ELSE IF op = "Seq" THEN {} ELSE {xn}
 Quiet(op, xn, yn, zn, k) ==
   op \in PureOps => \A g \in Regs \ Reads(op, xn, yn, zn, k) : regs[g] = <<>>
@@ -121,7 +121,8 @@ ASubEqE       == /\ \E p \in Rot3, i \in 0..(MaxLen - 1) : Do("SubEqE", p[1], p[
 AMulEqE       == /\ \E p \in Rot3, i \in 0..(MaxLen - 1) : Do("MulEqE", p[1], p[2], p[3], <<i>>)
 ADivEqE       == /\ \E p \in Rot3, i \in 0..(MaxLen - 1) : Do("DivEqE", p[1], p[2], p[3], <<i>>)
 ARep          == /\ \E p \in Rot3, n \in 0..3 : Do("Rep", p[1], p[2], p[3], <<n>>)
-ASeq          == /\ \E f, t \in Vals \cup {-250, 199, 300}, b \in {1, 2, 3, 50, 100, 200} : Do("Seq", "-", "-", "-", <<f, t, b>>)
+ASeq          == /\ \/ \E f, t \in Vals, b \in 1..3 : Do("Seq", "-", "-", "-", <<f, t, b>>)
+                    \/ \E f, t \in {-250, -1, 0, 199, 300}, b \in {50, 100, 200} : Do("Seq", "-", "-", "-", <<f, t, b>>)
 AAdd          == /\ (B("Add") \/ BA("Add"))
 ASub          == /\ (B("Sub") \/ BA("Sub"))
 AMul          == /\ (B("Mul") \/ BA("Mul"))
@@ -153,9 +154,15 @@ ACovB         == /\ B("CovB")
 AVarB         == /\ U("VarB")
 AFdr          == /\ U("Fdr")
 ACovO         == /\ B("CovO")
-AMeanW        == /\ \E p \in Perm3, nz, pre \in 0..1 : Do("MeanW", p[1], p[2], p[3], <<nz, pre>>)
-ACovW         == /\ \E p \in Perm3, u, nz, pre \in 0..1 : Do("CovW", p[1], p[2], p[3], <<u, nz, pre>>)
-AVarW         == /\ \E p \in Perm3, u, nz, pre \in 0..1 : Do("VarW", p[1], p[2], p[3], <<u, nz, pre>>)
+AMeanW        == /\ \E p \in Perm3, nz, pre \in 0..1, e \in {0, 30} : Do("MeanW", p[1], p[2], p[3], <<nz, pre, e>>)
+ACovW         == /\ \E p \in Perm3, u, nz, pre \in 0..1, e \in {0, 30} : Do("CovW", p[1], p[2], p[3], <<u, nz, pre, e>>)
+AVarW         == /\ \E p \in Perm3, u, nz, pre \in 0..1, e \in {0, 30} : Do("VarW", p[1], p[2], p[3], <<u, nz, pre, e>>)
+AMeanX        == /\ \E p \in Rot3, e \in {0, 30} : Do("MeanX", p[1], p[2], p[3], <<e>>)
+ACenterX      == /\ \E p \in Rot3, e \in {0, 30} : Do("CenterX", p[1], p[2], p[3], <<e>>)
+ACovX         == /\ \E p \in Perm3, u \in 0..1, e \in {0, 30} : Do("CovX", p[1], p[2], p[3], <<u, e>>)
+AVarX         == /\ \E p \in Rot3, u \in 0..1, e \in {0, 30} : Do("VarX", p[1], p[2], p[3], <<u, e>>)
+ASdX          == /\ \E p \in Rot3, u \in 0..1, e \in {0, 30} : Do("SdX", p[1], p[2], p[3], <<u, e>>)
+ACorX         == /\ \E p \in Perm3, e \in {0, 30} : Do("CorX", p[1], p[2], p[3], <<e>>)
 
 Next ==
   \/ ASet \/ ASum \/ AProd \/ ACumSum \/ ACumProd \/ AAbs \/ ASqr \/ AMin \/ AMax
@@ -166,7 +173,7 @@ Next ==
   \/ AAdd \/ ASub \/ AMul \/ ADiv \/ ASumProd \/ AScalar \/ AScalar3 \/ AKron \/ AUnion \/ AInter
   \/ ASameC \/ ASame \/ AContainsAll \/ AExtract \/ AAddEq \/ ASubEq \/ AMulEq \/ ADivEq
   \/ AAppend \/ APrepend \/ AExtend \/ ADiff \/ AUnionAll \/ AInterAll \/ AConcat
-  \/ AMean \/ ACenter \/ ACovB \/ AVarB \/ AFdr \/ ACovO \/ AMeanW \/ ACovW \/ AVarW
+  \/ AMean \/ ACenter \/ ACovB \/ AVarB \/ AFdr \/ ACovO \/ AMeanW \/ ACovW \/ AVarW \/ AMeanX \/ ACenterX \/ ACovX \/ AVarX \/ ASdX \/ ACorX
 
 Spec == Init /\ [][Next]_vars
 
